@@ -8,6 +8,7 @@ header field strictly, decodes the folders with the lzma module and verifies all
      fixture's own options: both must agree on the layout                                  (failure = WRITER-INVALID)
   4. forged archives: the reader must notice exactly the forged field                       (failure = WRITER-INVALID)
   5. the library's reader (SevenZipFile, read_archive) on the same valid archives          (mismatch = EXTRACTOR-DISAGREES)
+  6. if bsdtar is installed: libarchive's 7-Zip reader lists / extracts the same valid archives (failure = WRITER-INVALID)
 Exit code is 0 unless the self-test itself crashes; WRITER-INVALID lines are bugs of the writer.
 """
 from __future__ import annotations
@@ -16,7 +17,9 @@ import io
 import itertools
 import lzma
 import os
+import shutil
 import struct
+import subprocess
 import sys
 import tempfile
 import zlib
@@ -498,7 +501,7 @@ class Reader7z:
 
 
 # =================================================================================================== bookkeeping
-COUNTS = {"OK": 0, "WRITER-INVALID": 0, "EXTRACTOR-DISAGREES": 0, "FORGED-OK": 0}
+COUNTS = {"OK": 0, "WRITER-INVALID": 0, "EXTRACTOR-DISAGREES": 0, "FORGED-OK": 0, "NOTE": 0}
 DISAGREE = []
 
 
@@ -553,6 +556,43 @@ def short(x, n=200):
     return s if len(s) <= n else s[:n] + "..."
 
 
+# =================================================================================================== libarchive (optional)
+def _find_bsdtar():
+    for c in (shutil.which("bsdtar"), "/root/miniconda/bin/bsdtar", "/usr/bin/bsdtar"):
+        if c and os.path.exists(c):
+            return c
+    return None
+
+
+BSDTAR = _find_bsdtar()
+
+
+def bsdtar_check(name, members, opts, blob):
+    """second independent reader: libarchive's 7-Zip reader (a real-world implementation).  Only used for harmless names.
+    Known libarchive limits, skipped: partially defined attributes (libarchive reads the External byte before the
+    'defined' bit vector, 7zFormat.txt and 7-Zip put it after), archives without SubStreamsInfo, the explicit empty header."""
+    if BSDTAR is None:
+        return None
+    mm = W.with_empty_between(members) if (opts or {}).get("empty_between") else members
+    attrs = [m.get("attrs") is not None for m in mm]
+    if (any(attrs) and not all(attrs)) or (opts or {}).get("substreams") == "omit" or (not mm and (opts or {}).get("empty_as_header")):
+        return "skipped"
+    env = dict(os.environ, LC_ALL="C.UTF-8")
+    with tempfile.TemporaryDirectory(prefix="sp2t-verif-st7z-") as td:
+        p = os.path.join(td, "t.7z")
+        with open(p, "wb") as fh:
+            fh.write(blob)
+        r1 = subprocess.run([BSDTAR, "-tf", p], capture_output=True, env=env)
+        r2 = subprocess.run([BSDTAR, "-xOf", p], capture_output=True, env=env)
+    want_names = [m["name"] + ("/" if m.get("dir") else "") for m in mm]
+    want_data = b"".join(bytes(m.get("data") or b"") for m in mm)
+    got_names = r1.stdout.decode("utf-8", "replace").splitlines()
+    if r1.returncode or r2.returncode or got_names != want_names or r2.stdout != want_data:
+        line("WRITER-INVALID", name + " [libarchive]", f"rc={r1.returncode}/{r2.returncode} names={short(got_names, 80)} stderr={short(r1.stderr + r2.stderr, 120)}")
+        return "bad"
+    return "ok"
+
+
 # =================================================================================================== library side
 def lib_list_extract(blob):
     """SevenZipFile.list() + extractall() -> [(name, is_dir, size, bytes or None)]"""
@@ -563,9 +603,9 @@ def lib_list_extract(blob):
             z.extractall(td)
             out = []
             for fi in infos:
-                p = os.path.join(td, fi.filename) if fi.filename and not os.path.isabs(fi.filename) else None
+                p = os.path.normpath(os.path.join(td, fi.filename)) if fi.filename and not os.path.isabs(fi.filename) else None
                 data = None
-                if p and os.path.isfile(p):
+                if p and p.startswith(td + os.sep) and os.path.isfile(p):
                     with open(p, "rb") as fh:
                         data = fh.read()
                 out.append((fi.filename, fi.is_directory, fi.uncompressed, data))
@@ -912,12 +952,26 @@ def check_library(tk: Tokens, sets, valid):
     simplest.append(("simplest: non-ASCII BMP name", [{"name": "ü.txt", "data": t.encode()}], {}))
     simplest.append(("simplest: non-BMP name (surrogate pair in UTF-16)", [{"name": "\U0001F600.txt", "data": t.encode()}], {}))
     simplest.append(("simplest: backslash name", [{"name": "a\\b.txt", "data": t.encode()}], {}))
+    for hn in ("/abs.txt", "../up.txt", "a/../b.txt", "C:\\x.txt", ""):
+        simplest.append((f"simplest: good member + member with hostile name {hn!r}", [{"name": "good.txt", "data": t.encode()}, {"name": hn, "data": t.encode()}], {}))
     for name, members, opts in simplest:
         blob = roundtrip(name, members, opts)
         if blob is not None:
             lib_check(name, members, opts, blob)
     for name, members, opts, blob in valid:
         lib_check(name, members, opts, blob)
+    # the same archives through libarchive
+    tally = {"ok": 0, "skipped": 0, "bad": 0}
+    for name, members, opts, blob in [(n, m, o, W.sevenz(m, o)) for n, m, o in simplest if "name" not in n] + valid:
+        r = bsdtar_check(name, members, opts, blob)
+        if r is None:
+            break
+        tally[r] += 1
+    if BSDTAR is None:
+        line("NOTE", "bsdtar (libarchive) not found: second independent reader not used")
+    else:
+        line("OK" if not tally["bad"] else "WRITER-INVALID", f"libarchive ({BSDTAR}) lists and extracts the valid archives identically",
+             f"{tally['ok']} archives agree, {tally['bad']} differ, {tally['skipped']} skipped (known libarchive limits: partial attributes, no SubStreamsInfo, explicit empty header)")
 
 
 def main():
